@@ -13,7 +13,8 @@ from common import CORPUS_DIR, InfraError, call, err_class, frac, rat, unrat
 RULE = ("one case = a world (scenario with 0..4 lanelets [stop line optional], traffic signs, traffic lights, static / dynamic "
         "[trajectory prediction of KS/PM/Custom/ExtendedPM/Initial/MB/ST states | set-based prediction | none] / phantom / "
         "environment obstacles with exact or uncertain initial states [position region rectangle/circle/polygon, orientation "
-        "interval], 0..2 planning problems with 1..3 goal states) + loose objects of every class that has a public "
+        "interval], dynamic obstacles with history states, traffic lights with a housing shape, areas, 0..2 planning problems with "
+        "1..3 goal states; loose states sometimes with an inadmissible position / orientation type) + loose objects of every class that has a public "
         "translate_rotate, moved by one (t, a): a from {0, +-1e-9..+-0.049, +-0.05, +-nextafter(0.05), +-0.051, k*pi/2, +-2pi, "
         "+-nextafter(2pi), ints, uniform, log-uniform small, rarely out of range}, t dyadic / zero / float / int-typed / large; "
         "the motion is applied as a whole (Scenario / PlanningProblemSet), per network+obstacle, or part by part; "
@@ -30,15 +31,22 @@ ASSUMPTIONS = [
     "distances, inverse motion) is compared with relative 1e-9 as in the property text ('to rounding accuracy')",
     "the shape of an obstacle / trajectory prediction is given in the body frame and is not moved; obstacle shapes are generated "
     "centred at the origin (documented convention) so that occupancy_at_time is the rigid image",
-    "Area borders of a lanelet network are stored points of a scenario that the property's list of components does not name; they "
-    "are observed (oracle only) and reported under their own finding key (known-findings.txt); TrafficLight.shape (undocumented "
-    "optional rectangle) is not observed",
+    "ATTR_TABLE lists every attribute of the commonroad classes that holds spatial content with one decision each (moved / part / "
+    "body / known / cache / none); reflect_world walks every object of every case and stops the run (exit 2) on an unlisted one, so "
+    "the fields of the Lean records (= the moved, body and known entries) are complete w.r.t. the Python classes of this tree",
+    "decision 'known' (world frame, left in place by the code, not named by the property's list of components): Area borders and "
+    "DynamicObstacle.history - modelled as left in place, reported under their own finding keys (known-findings.txt, patches in "
+    "proposed_fixes/); if a tree moves them the snapshot is normalised and the check stays silent",
+    "decision 'body' (obstacle_shape, TrajectoryPrediction.shape, TrafficLight.shape [optional housing rectangle, default centre "
+    "(0, 0), used by no reader / writer / renderer]): must stay exactly as they are (checked)",
+    "states whose position is neither an array nor a Shape, or whose orientation is neither a number nor an AngleInterval, are "
+    "inadmissible: State.translate_rotate raises TypeError (modelled, compared); the oracle does not count that as 'fails'",
     "not demanded (the property text speaks of points and orientations): velocity / acceleration components other than the "
     "velocity vector of a PMState, from which its orientation is derived; occupancy sets of a TrajectoryPrediction cached BEFORE "
     "the motion (cache invalidation is C11's subject) - the oracle reads occupancies from a deep copy with cold caches",
     "3-D vertices (z) are outside the property (planar rigid motion)",
 ]
-REQUIRED_BUCKETS = ["area", "angle/zero", "angle/tiny", "angle/small<=0.05", "angle/0.05-edge", "angle/quarter-turn", "angle/full-turn",
+REQUIRED_BUCKETS = ["area", "history", "light/shape", "state/other", "angle/zero", "angle/tiny", "angle/small<=0.05", "angle/0.05-edge", "angle/quarter-turn", "angle/full-turn",
                     "angle/generic", "angle/out-of-range", "t/zero", "t/dyadic", "t/float", "mode/whole", "mode/network",
                     "mode/parts", "probe", "obst/static", "obst/dynamic-traj", "obst/dynamic-set", "obst/phantom", "obst/env",
                     "state/PMState", "state/uncertain-pos", "state/uncertain-ori", "lanelet/stop-line", "sign", "light",
@@ -223,7 +231,10 @@ def gen_obstacle(r, oid, a):
     if k == "dynamic-traj":
         sts, t0 = gen_state_list(r, a)
         init = gen_state(r, "InitialState", t0 - 1, a, uncertain=r.random() < 0.2)
-        return {"k": "dynamic", "id": oid, "shape": gen_body_shape(r), "st": init, "traj": sts}
+        o = {"k": "dynamic", "id": oid, "shape": gen_body_shape(r), "st": init, "traj": sts}
+        if r.random() < 0.3:     # past states (DynamicObstacle.history), world frame
+            o["hist"] = [gen_state(r, "InitialState", -3 + i, a, uncertain=False) for i in range(r.randint(1, 3))]
+        return o
     if k == "dynamic-set":
         occ = [{"t": i + 1 if r.random() < 0.7 else [i + 1, i + 1], "sh": gen_shape(r, a=a)} for i in range(r.randint(1, 4))]
         return {"k": "dynamic", "id": oid, "shape": gen_body_shape(r), "st": gen_state(r, "InitialState", 0, a, uncertain=r.random() < 0.3),
@@ -257,6 +268,13 @@ LOOSE_KINDS = ["points", "shape", "state", "trajectory", "occupancy", "setpred",
                "obstacle", "goal", "problem"]
 
 
+def gen_light_shape(r):
+    """TrafficLight.shape: optional Rectangle (housing; default centre (0, 0), body frame)."""
+    if r.random() < 0.6:
+        return None
+    return {"k": "rect", "l": r.choice([0.3, 0.5]), "w": r.choice([0.9, 1.2]), "c": [0.0, 0.0], "th": 0.0}
+
+
 def gen_loose(r, kind, a):
     if kind == "points":
         return {"kind": kind, "v": [_pt(r) for _ in range(r.randint(1, 5))]}
@@ -266,6 +284,12 @@ def gen_loose(r, kind, a):
         st = gen_state(r, None, r.randint(0, 9), a)
         if st["cls"] == "CustomState" and r.random() < 0.4:
             st.pop(r.choice(["ori", "pos"]), None)
+        k = r.random()
+        if k < 0.10 and "pos" in st:
+            st["pos_other"] = True           # position given as a tuple: the TypeError branch
+            st["pos"] = _pt(r)
+        elif k < 0.20 and "ori" in st:
+            st["ori_other"] = True           # orientation given as a string: the TypeError branch
         return {"kind": kind, "v": st}
     if kind in ("trajectory", "trajpred"):
         sts, t0 = gen_state_list(r, a)
@@ -278,8 +302,10 @@ def gen_loose(r, kind, a):
         return {"kind": kind, "v": [_pt(r), _pt(r)]}
     if kind == "lanelet":
         return {"kind": kind, "v": gen_lanelet(r, 900)}
-    if kind in ("sign", "light"):
+    if kind == "sign":
         return {"kind": kind, "v": _pt(r)}
+    if kind == "light":
+        return {"kind": kind, "v": {"pos": _pt(r), "shape": gen_light_shape(r)}}
     if kind == "obstacle":
         return {"kind": kind, "v": gen_obstacle(r, 901, a)}
     if kind == "goal":
@@ -298,7 +324,8 @@ def gen_case(ctx):
     nl = r.choice([0, 1, 1, 2, 3, 4])
     lanelets = [gen_lanelet(r, 1 + i) for i in range(nl)]
     signs = [{"id": 100 + i, "pos": _pt(r), "lanelet": r.randint(1, nl)} for i in range(r.choice([0, 1, 2]))] if nl else []
-    lights = [{"id": 200 + i, "pos": _pt(r), "lanelet": r.randint(1, nl)} for i in range(r.choice([0, 1, 2]))] if nl else []
+    lights = [{"id": 200 + i, "pos": _pt(r), "lanelet": r.randint(1, nl), "shape": gen_light_shape(r)}
+              for i in range(r.choice([0, 1, 2]))] if nl else []
     obstacles = [gen_obstacle(r, 300 + i, a) for i in range(r.choice([0, 1, 2, 3, 5]))]
     areas = [{"id": 700, "borders": [[_pt(r) for _ in range(r.randint(2, 4))] for _ in range(r.randint(1, 2))]}] \
         if valid and mode != "parts" and r.random() < 0.15 else []
@@ -372,8 +399,12 @@ def build_state(st):
     kw = {"time_step": Interval(t[0], t[1]) if isinstance(t, list) else t}
     if "pos" in st:
         kw["position"] = build_shape(st["pos"]) if isinstance(st["pos"], dict) else _arr(st["pos"])
+        if st.get("pos_other"):
+            kw["position"] = tuple(st["pos"])
     if "ori" in st:
         kw["orientation"] = AngleInterval(st["ori"][0], st["ori"][1]) if isinstance(st["ori"], list) else st["ori"]
+        if st.get("ori_other"):
+            kw["orientation"] = "north"
     if st["cls"] == "PMState":
         kw["velocity"], kw["velocity_y"] = st["vx"], st["vy"]
     elif "v" in st and st["cls"] not in ("InputState", "LateralState"):
@@ -400,7 +431,7 @@ def build_sign(s):
 
 def build_light(s):
     from commonroad.scenario.traffic_light import TrafficLight
-    return TrafficLight(s["id"], _arr(s["pos"]))
+    return TrafficLight(s["id"], _arr(s["pos"]), shape=build_shape(s["shape"]) if s.get("shape") else None)
 
 
 def build_occs(occ):
@@ -426,7 +457,8 @@ def build_obstacle(o):
             pred = TrajectoryPrediction(build_trajectory(o["traj"]), build_shape(o["shape"]))
         elif "occ" in o:
             pred = SetBasedPrediction(1, build_occs(o["occ"]))
-        return DynamicObstacle(o["id"], ObstacleType.CAR, build_shape(o["shape"]), build_state(o["st"]), pred)
+        return DynamicObstacle(o["id"], ObstacleType.CAR, build_shape(o["shape"]), build_state(o["st"]), pred,
+                               history=[build_state(h) for h in o.get("hist", [])])
     if k == "phantom":
         from commonroad.prediction.prediction import SetBasedPrediction as SBP
         return PhantomObstacle(o["id"], None if o["occ"] is None else SBP(0, build_occs(o["occ"])))
@@ -487,7 +519,7 @@ def build_loose(lo):
     if k == "sign":
         return build_sign({"id": 990, "pos": v})
     if k == "light":
-        return build_light({"id": 991, "pos": v})
+        return build_light({"id": 991, "pos": v, "shape": None} if isinstance(v, list) else {"id": 991, "pos": v["pos"], "shape": v.get("shape")})
     if k == "obstacle":
         return build_obstacle(v)
     if k == "goal":
@@ -507,34 +539,118 @@ def _ps(arr):
     return [[float(x), float(y)] for x, y in arr]
 
 
-# reflection pass: spatial attributes (arrays / shapes) the snapshot knows about, per class; a class that grows another one
-# makes the run stop with exit 2 (coverage must not be lost silently)
-KNOWN_SPATIAL = {
-    "Rectangle": {"_center", "_vertices"}, "Circle": {"_center"}, "Polygon": {"_vertices", "_min", "_max"}, "ShapeGroup": set(),
-    "Lanelet": {"_left_vertices", "_center_vertices", "_right_vertices", "_distance", "_inner_distance", "_polygon"},
-    "StopLine": {"_start", "_end"}, "TrafficSign": {"_position"}, "TrafficLight": {"_position", "_shape"},
-    "StaticObstacle": {"_obstacle_shape", "_initial_occupancy_shape"}, "DynamicObstacle": {"_obstacle_shape", "_initial_occupancy_shape"},
-    "PhantomObstacle": set(), "EnvironmentObstacle": {"_obstacle_shape"}, "Occupancy": {"_shape"},
-    "TrajectoryPrediction": {"_shape"}, "SetBasedPrediction": set(), "Trajectory": set(), "GoalRegion": set(),
-    "PlanningProblem": set(),
+# ---- attribute table: EVERY attribute of the classes below that holds spatial content (numpy arrays, shapes, states, angle
+# intervals, shapely geometries, other commonroad objects, or containers of those), with one decision each:
+#   moved   world frame, moved by translate_rotate          -> field of the Lean record, in `obs`, checked by correspondence + oracle
+#   part    container of components that are walked themselves
+#   body    body frame (dimensions only / relative to the object) -> field of the Lean record, must stay unchanged (checked)
+#   known   world frame, NOT moved by the code               -> field of the Lean record (left in place), known finding
+#   cache   derived from moved attributes (re-created by translate_rotate or recomputed lazily) -> checked as derived geometry
+#   none    not spatial (ids, time, velocity intervals, meta data)
+# The reflection pass (`reflect_world`) walks every object reachable from the scenario, the planning-problem set and the loose
+# objects of a case; an attribute with spatial content that the table does not list stops the run (exit 2): the record of the
+# Lean model is complete w.r.t. the Python classes as long as this pass is silent.
+ATTR_TABLE = {
+    "Rectangle": {"_center": "moved", "_vertices": "cache", "_Rectangle__shapely_polygon": "cache"},
+    "Circle": {"_center": "moved", "_shapely_circle": "cache"},
+    "Polygon": {"_vertices": "moved", "_min": "cache", "_max": "cache", "_shapely_polygon": "cache"},
+    "ShapeGroup": {"_shapes": "part"},
+    "State": {"position": "moved", "orientation": "moved"},            # every State subclass; PMState: velocity, velocity_y (floats)
+    "Trajectory": {"_state_list": "part"},
+    "Occupancy": {"_shape": "moved"},
+    "SetBasedPrediction": {"_occupancy_set": "part"},
+    "TrajectoryPrediction": {"_trajectory": "part", "_shape": "body", "occupancy_set": "cache"},
+    "Lanelet": {"_left_vertices": "moved", "_center_vertices": "moved", "_right_vertices": "moved", "_stop_line": "part",
+                "_polygon": "moved", "_distance": "cache", "_inner_distance": "cache"},
+    "StopLine": {"_start": "moved", "_end": "moved"},
+    "TrafficSign": {"_position": "moved", "_traffic_sign_elements": "none"},
+    "TrafficLight": {"_position": "moved", "_shape": "body", "_traffic_light_cycle": "none"},
+    "Area": {"_border": "part"},
+    "AreaBorder": {"_border_vertices": "known"},
+    "LaneletNetwork": {"_lanelets": "part", "_traffic_signs": "part", "_traffic_lights": "part", "_areas": "part",
+                       "_intersections": "none", "_information": "none", "_buffered_polygons": "cache", "_strtee": "cache"},
+    "StaticObstacle": {"_initial_state": "part", "_obstacle_shape": "body", "_initial_occupancy_shape": "cache",
+                       "_initial_signal_state": "none", "_signal_series": "none"},
+    "DynamicObstacle": {"_initial_state": "part", "_prediction": "part", "_obstacle_shape": "body",
+                        "_initial_occupancy_shape": "cache", "history": "known", "signal_history": "none",
+                        "_initial_signal_state": "none", "_signal_series": "none",
+                        "_initial_meta_information_state": "none", "_meta_information_series": "none"},
+    "PhantomObstacle": {"_prediction": "part"},
+    "EnvironmentObstacle": {"_obstacle_shape": "moved"},
+    "Scenario": {"_lanelet_network": "part", "_static_obstacles": "part", "_dynamic_obstacles": "part",
+                 "_phantom_obstacle": "part", "_environment_obstacle": "part", "scenario_id": "none", "location": "none",
+                 "_environment": "none"},
+    "GoalRegion": {"_state_list": "part"},
+    "PlanningProblem": {"_initial_state": "part", "_goal_region": "part"},
+    "PlanningProblemSet": {"_planning_problem_dict": "part"},
 }
-_reflected = set()
+KNOWN_KEYS = {("AreaBorder", "_border_vertices"): "C05/LaneletNetwork.translate_rotate/area-border-not-moved",
+              ("DynamicObstacle", "history"): "C05/DynamicObstacle.translate_rotate/history-not-moved"}
+NON_SPATIAL_CLASSES = {"Interval", "ScenarioID", "MapInformation", "Time", "TrafficSignElement", "SignalState", "Location",
+                       "Environment", "GeoTransformation", "TrafficLightCycle", "TrafficLightCycleElement", "Tag",
+                       "MetaInformationState", "Intersection", "IncomingGroup", "OutgoingGroup", "CrossingGroup"}
+
+
+def _spatial_kind(v, depth=0):
+    """None, or a description of the spatial content of an attribute value."""
+    import enum
+    import numpy as np
+    if isinstance(v, np.ndarray):
+        return "ndarray"
+    mod = type(v).__module__ or ""
+    if mod.startswith("shapely"):
+        return "shapely"
+    if mod.startswith("commonroad") and not isinstance(v, (type, enum.Enum)):
+        return None if type(v).__name__ in NON_SPATIAL_CLASSES else type(v).__name__
+    if depth < 3 and isinstance(v, (list, tuple, set, frozenset, dict)):
+        for x in (list(v.values()) if isinstance(v, dict) else list(v))[:8]:
+            k = _spatial_kind(x, depth + 1)
+            if k:
+                return f"[{k}]"
+    return None
+
+
+def reflect_world(roots):
+    """Walk every commonroad object reachable from `roots`; every attribute with spatial content must be in ATTR_TABLE."""
+    from commonroad.scenario.state import State
+    seen = set()
+    stack = list(roots)
+    while stack:
+        o = stack.pop()
+        if id(o) in seen:
+            continue
+        seen.add(id(o))
+        if isinstance(o, (list, tuple, set, frozenset)):
+            stack.extend(o)
+            continue
+        if isinstance(o, dict):
+            stack.extend(o.values())
+            continue
+        if not (type(o).__module__ or "").startswith("commonroad"):
+            continue
+        try:
+            attrs = vars(o)
+        except TypeError:
+            continue
+        name = "State" if isinstance(o, State) else type(o).__name__
+        table = ATTR_TABLE.get(name)
+        for k, v in attrs.items():
+            kind = _spatial_kind(v)
+            if kind is None:
+                continue
+            if table is None:
+                if name in NON_SPATIAL_CLASSES:
+                    continue
+                raise InfraError(f"C05 reflection: class {name} (attribute {k}: {kind}) is not in the attribute table")
+            if k not in table:
+                raise InfraError(f"C05 reflection: {name}.{k} holds {kind}; the attribute table has no decision for it")
+            if table[k] != "none":
+                stack.append(v)
 
 
 def reflect(obj):
-    import numpy as np
-    from commonroad.geometry.shape import Shape
-    from commonroad.scenario.state import State
-    name = type(obj).__name__
-    if name in _reflected:
-        return
-    _reflected.add(name)
-    known = {"position"} if isinstance(obj, State) else KNOWN_SPATIAL.get(name)
-    if known is None:
-        raise InfraError(f"C05 snapshot: no attribute list for class {name}")
-    for k, v in vars(obj).items():
-        if isinstance(v, (np.ndarray, Shape)) and k not in known:
-            raise InfraError(f"C05 snapshot: {name}.{k} holds a {type(v).__name__} the snapshot does not list")
+    """kept for the snapshot functions: the complete walk is `reflect_world` (run_case)."""
+    return None
 
 
 def snap_shape(sh):
@@ -560,7 +676,8 @@ def snap_state(st):
     out = {"pos": None, "ori": None, "vel": None}
     pos = getattr(st, "position", None)
     if pos is not None:
-        out["pos"] = {"sh": snap_shape(pos)} if isinstance(pos, Shape) else {"pt": _p(pos)}
+        out["pos"] = {"sh": snap_shape(pos)} if isinstance(pos, Shape) else \
+            {"pt": _p(pos)} if isinstance(pos, np.ndarray) else {"other": True}
     if isinstance(st, PMState):
         if isinstance(st.velocity, (int, float, np.number)) and isinstance(st.velocity_y, (int, float, np.number)):
             out["vel"] = [float(st.velocity), float(st.velocity_y)]
@@ -568,8 +685,10 @@ def snap_state(st):
         ori = getattr(st, "orientation", None)
         if isinstance(ori, AngleInterval):
             out["ori"] = {"iv": [ori.start, ori.end]}
-        elif ori is not None:
+        elif isinstance(ori, (int, float, np.number)) and not isinstance(ori, bool):
             out["ori"] = {"x": ori}
+        elif ori is not None:
+            out["ori"] = {"other": True}
     return out
 
 
@@ -591,12 +710,14 @@ def snap_obstacle(o):
         for c in (o.prediction.occupancy_set if isinstance(o.prediction, SetBasedPrediction) else []):
             reflect(c)
     if isinstance(o, StaticObstacle):
-        return {"k": "static", "st": snap_state(o.initial_state)}
+        return {"k": "static", "body": snap_shape(o.obstacle_shape), "st": snap_state(o.initial_state)}
     if isinstance(o, DynamicObstacle):
         p = o.prediction
-        return {"k": "dynamic", "st": snap_state(o.initial_state),
+        return {"k": "dynamic", "body": snap_shape(o.obstacle_shape), "st": snap_state(o.initial_state),
                 "traj": [snap_state(s) for s in p.trajectory.state_list] if isinstance(p, TrajectoryPrediction) else None,
-                "occ": [snap_shape(c.shape) for c in p.occupancy_set] if isinstance(p, SetBasedPrediction) else None}
+                "pbody": snap_shape(p.shape) if isinstance(p, TrajectoryPrediction) else None,
+                "occ": [snap_shape(c.shape) for c in p.occupancy_set] if isinstance(p, SetBasedPrediction) else None,
+                "hist": [snap_state(h) for h in o.history]}
     if isinstance(o, PhantomObstacle):
         return {"k": "phantom", "occ": None if o.prediction is None else [snap_shape(c.shape) for c in o.prediction.occupancy_set]}
     if isinstance(o, EnvironmentObstacle):
@@ -609,12 +730,16 @@ def snap_scenario(sc):
     obs = sorted(sc.obstacles, key=lambda o: o.obstacle_id)
     return {"lanelets": [snap_lanelet(la) for la in sorted(net.lanelets, key=lambda x: x.lanelet_id)],
             "signs": [_p(s.position) for s in sorted(net.traffic_signs, key=lambda x: (reflect(x), x.traffic_sign_id)[1])],
-            "lights": [_p(s.position) for s in sorted(net.traffic_lights, key=lambda x: (reflect(x), x.traffic_light_id)[1])],
-            "obstacles": [snap_obstacle(o) for o in obs]}
+            "lights": [snap_light(s) for s in sorted(net.traffic_lights, key=lambda x: x.traffic_light_id)],
+            "obstacles": [snap_obstacle(o) for o in obs], "areas": snap_areas(sc)}
+
+
+def snap_light(tl):
+    return {"p": _p(tl.position), "lsh": None if tl.shape is None else snap_shape(tl.shape)}
 
 
 def snap_areas(sc):
-    """Area borders of the lanelet network (not part of the model: the property text does not name them; see known-findings)."""
+    """Area borders of the lanelet network (world frame; the code leaves them in place: known finding)."""
     return [[_ps(b.border_vertices) for b in ar.border] for ar in sorted(sc.lanelet_network.areas, key=lambda x: x.area_id)]
 
 
@@ -637,7 +762,7 @@ def snap_loose(kind, obj):
     if kind == "trajectory":
         return [snap_state(s) for s in obj.state_list]
     if kind == "trajpred":
-        return [snap_state(s) for s in obj.trajectory.state_list]
+        return {"pbody": snap_shape(obj.shape), "traj": [snap_state(s) for s in obj.trajectory.state_list]}
     if kind == "occupancy":
         return snap_shape(obj.shape)
     if kind == "setpred":
@@ -646,8 +771,10 @@ def snap_loose(kind, obj):
         return [_p(obj.start), _p(obj.end)]
     if kind == "lanelet":
         return snap_lanelet(obj)
-    if kind in ("sign", "light"):
+    if kind == "sign":
         return _p(obj.position)
+    if kind == "light":
+        return snap_light(obj)
     if kind == "obstacle":
         return snap_obstacle(obj)
     if kind == "goal":
@@ -976,6 +1103,7 @@ def leaves(tree, path, out, key=None):
         else:
             for i, v in enumerate(tree):
                 leaves(v, f"{path}[{i}]", out, key)
+    return out
 
 
 def rigid(c, s, t, p):
@@ -987,6 +1115,45 @@ def ang_close(got, want, tau, tol):
     d = frac(got) - want
     k = round(d / tau)
     return abs(d - k * tau) <= tol
+
+
+LEFT_KEYS = {"body", "pbody", "lsh", "hist", "areas"}      # snapshot keys of attributes with decision body / known
+
+
+def strip(tree):
+    """the snapshot without the attributes that translate_rotate is not meant to / does not move (ATTR_TABLE: body, known)."""
+    if isinstance(tree, dict):
+        return {k: strip(v) for k, v in tree.items() if k not in LEFT_KEYS}
+    if isinstance(tree, list):
+        return [strip(v) for v in tree]
+    return tree
+
+
+def collect(tree, keys, path, out):
+    """(path, subtree) of every occurrence of one of `keys`."""
+    if isinstance(tree, dict):
+        for k, v in tree.items():
+            if k in keys:
+                out.append((f"{path}/{k}", v))
+            else:
+                collect(v, keys, f"{path}/{k}", out)
+    elif isinstance(tree, list):
+        for i, v in enumerate(tree):
+            collect(v, keys, f"{path}[{i}]", out)
+    return out
+
+
+def replace_at(tree, keys, new_values):
+    """copy of `tree` with the occurrences of `keys` (in `collect` order) replaced by `new_values`."""
+    it = iter(new_values)
+
+    def go(t):
+        if isinstance(t, dict):
+            return {k: (next(it) if k in keys else go(v)) for k, v in t.items()}
+        if isinstance(t, list):
+            return [go(v) for v in t]
+        return t
+    return go(tree)
 
 
 class Oracle:
@@ -1050,20 +1217,64 @@ class Oracle:
                     self.fail(site, "pm-velocity-not-rotated", f"{path}: v={b} a={self.a!r}: got {x}")
                     return
 
-    def areas(self, site, before, after):
-        """stored points of a scenario that the property's list of components does not name: reported under their own key."""
-        if getattr(self.ctx, "_c05_area_reported", 0) >= 3:
-            return          # a recorded finding: a few witnesses per worker are enough (the failure list is bounded)
-        for i, (ab, aa) in enumerate(zip(before, after)):
-            for j, (bb, ba) in enumerate(zip(ab, aa)):
-                for p, q in zip(bb, ba):
-                    want = rigid(self.c, self.s, self.t, p)
-                    tol = 64 * frac(EPS) * (1 + self.tn + abs(frac(p[0])) + abs(frac(p[1])))
-                    if abs(frac(q[0]) - want[0]) > tol or abs(frac(q[1]) - want[1]) > tol:
-                        self.ctx._c05_area_reported = getattr(self.ctx, "_c05_area_reported", 0) + 1
-                        self.fail(site, "area-border-not-moved", f"area {i} border {j}: p={p} -> {q}, R(a)(p+t) = "
-                                  f"[{float(want[0])!r}, {float(want[1])!r}] (t={self.case['t']['v']}, a={self.a!r})")
-                        return
+    def is_moved(self, before, after):
+        """True iff the snapshot subtree `after` is the rigid image of `before` (points, angles; quiet)."""
+        lb, la = [], []
+        leaves(before, "", lb)
+        leaves(after, "", la)
+        if [(k, p) for k, p, _ in lb] != [(k, p) for k, p, _ in la]:
+            return False
+        for (kind, _, b), (_, _, x) in zip(lb, la):
+            if kind == "pt":
+                want = rigid(self.c, self.s, self.t, b)
+                tol = 64 * frac(EPS) * (1 + self.tn + abs(frac(b[0])) + abs(frac(b[1])))
+                if abs(frac(x[0]) - want[0]) > tol or abs(frac(x[1]) - want[1]) > tol:
+                    return False
+            elif kind == "ang":
+                if not ang_close(x, frac(b) + frac(self.a), self.tau, Fraction(1, 10 ** 13)):
+                    return False
+        return True
+
+    def left_fields(self, before, after, enabled):
+        """World-frame attributes the code is known to leave in place (ATTR_TABLE decision 'known': area borders, history):
+        where they are NOT the rigid image, the recorded finding is reported (a few witnesses per worker); where they are
+        (a repaired tree), the snapshot is normalised to what the model answers, so the correspondence stays silent.
+        Returns the normalised `after`."""
+        subs_b = collect(before, {"hist", "areas"}, "", [])
+        subs_a = collect(after, {"hist", "areas"}, "", [])
+        new = []
+        for (path, b), (_, x) in zip(subs_b, subs_a):
+            if not any(k in ("pt", "ang") for k, _, _ in leaves(b, "", [])):      # nothing stored
+                new.append(x)
+                continue
+            if self.is_moved(b, x):
+                if x != b:                           # (x == b: fixed point of this motion, nothing to tell apart)
+                    self.ctx.tag("left-field/moved-by-the-code")
+                new.append(b)
+                continue
+            new.append(x)
+            site = "DynamicObstacle.translate_rotate" if path.endswith("/hist") else "LaneletNetwork.translate_rotate"
+            if x != b:          # touched, but not the rigid image: not the recorded finding, a failure of its own
+                self.fail(site, ("history" if path.endswith("/hist") else "area-border") + "-changed-but-not-rigidly",
+                          f"{path}: {json.dumps(b)[:140]} -> {json.dumps(x)[:140]} (t={self.case['t']['v']}, a={self.a!r})")
+                continue
+            if not enabled:
+                continue
+            key = "history-not-moved" if path.endswith("/hist") else "area-border-not-moved"
+            n = getattr(self.ctx, "_c05_left_reported", {})
+            if n.get(key, 0) < 3:
+                n[key] = n.get(key, 0) + 1
+                self.ctx._c05_left_reported = n
+                self.fail(site, key, f"{path}: stored {json.dumps(b)[:160]} is unchanged after translate_rotate(t={self.case['t']['v']}, "
+                                     f"a={self.a!r}) although the rest of the object was moved")
+        return replace_at(after, {"hist", "areas"}, new)
+
+    def bodies(self, site, before, after):
+        """body-frame shapes (obstacle_shape, TrajectoryPrediction.shape, TrafficLight.shape) must stay exactly as they are."""
+        for (path, b), (_, x) in zip(collect(before, {"body", "pbody", "lsh"}, "", []), collect(after, {"body", "pbody", "lsh"}, "", [])):
+            if b != x:
+                self.fail(site, "body-frame-shape-changed", f"{path}: {json.dumps(b)[:120]} -> {json.dumps(x)[:120]}")
+                return
 
     def consequences(self, site, before, after, S):
         """pairwise distances preserved (relative 1e-9)."""
@@ -1179,6 +1390,12 @@ def tag_case(ctx, case):
         ctx.tag("sign")
     if s["lights"]:
         ctx.tag("light")
+    if any(x.get("shape") for x in s["lights"]):
+        ctx.tag("light/shape")
+    if s.get("areas"):
+        ctx.tag("area")
+    if any(o.get("hist") for o in s["obstacles"]):
+        ctx.tag("history")
     if case["problems"]:
         ctx.tag("problem")
 
@@ -1237,10 +1454,11 @@ def run_case(ctx, case):
     orc = Oracle(ctx, case, lambda site: sub_case(case, site))
 
     # ---- before
+    reflect_world([sc, pps, loose_objs])
     before = {"scenario": snap_scenario(sc), "problems": snap_problems(pps),
               "loose": [snap_loose(lo["kind"], o) for lo, o in zip(case["loose"], loose_objs)]}
-    dbefore = derived_world(sc, pps, loose_objs, case) if valid else None
-    areas_before = snap_areas(sc)
+    inadm = [lo["kind"] == "state" and bool(lo["v"].get("pos_other") or lo["v"].get("ori_other")) for lo in case["loose"]]
+    dbefore = derived_world(sc, pps, [None if x else o for x, o in zip(inadm, loose_objs)], case) if valid else None
     S = case_scale(case, before)
 
     # ---- the motion
@@ -1260,8 +1478,10 @@ def run_case(ctx, case):
     # ---- after
     cmp_ = Cmp(S, tau, 4 if case.get("probe") else 64)
     after = {"scenario": None, "problems": None, "loose": [None] * len(loose_objs)}
+    left_on = valid and case["mode"] != "parts"      # part by part, nothing is called that could move areas / histories
     if werr is None:
         after["scenario"], after["problems"] = snap_scenario(sc), snap_problems(pps)
+        after["scenario"] = orc.left_fields(before["scenario"], after["scenario"], left_on) if valid else after["scenario"]
         impl_w = [{"ok": after["scenario"]}, {"ok": after["problems"]}]
     else:
         # which of the two calls of the mode 'whole' raised decides which answer is the error
@@ -1282,6 +1502,8 @@ def run_case(ctx, case):
         mo = model[2 + i]
         if err is None:
             after["loose"][i] = snap_loose(lo["kind"], m)
+            if valid:
+                after["loose"][i] = orc.left_fields(before["loose"][i], after["loose"][i], True)
             imp = {"ok": cmp_.tree(after["loose"][i], mo.get("ok"))} if "ok" in mo else {"ok": to_rat(after["loose"][i])}
         else:
             imp = {"err": err_class(err[1])}
@@ -1294,24 +1516,27 @@ def run_case(ctx, case):
         site, e = werr
         orc.fail(site, f"raises-{type(e).__name__}", f"{site}(t={tv}, a={a!r}) raised {type(e).__name__}: {str(e)[:160]}")
     for lo, err in zip(case["loose"], lerrs):
+        if err is not None and lo["kind"] == "state" and (lo["v"].get("pos_other") or lo["v"].get("ori_other")):
+            ctx.tag("state/other")       # inadmissible state (tuple position / string orientation): outside the property
+            continue
         if err is not None:
             site, e = err
             orc.fail(site, f"raises-{type(e).__name__}", f"{site}(t={tv}, a={a!r}) on a loose {lo['kind']} raised {type(e).__name__}: {str(e)[:160]}")
     if after["scenario"] is not None:
-        orc.stored("Scenario.translate_rotate" if case["mode"] == "whole" else f"scenario[{case['mode']}]", before["scenario"], after["scenario"])
-        orc.consequences("Scenario.translate_rotate" if case["mode"] == "whole" else f"scenario[{case['mode']}]",
-                         before["scenario"], after["scenario"], S)
-    if after["scenario"] is not None and areas_before and case["mode"] != "parts":
-        ctx.tag("area")
-        orc.areas("LaneletNetwork.translate_rotate", areas_before, snap_areas(sc))
+        site = "Scenario.translate_rotate" if case["mode"] == "whole" else f"scenario[{case['mode']}]"
+        orc.stored(site, strip(before["scenario"]), strip(after["scenario"]))
+        orc.consequences(site, strip(before["scenario"]), strip(after["scenario"]), S)
+        orc.bodies(site, before["scenario"], after["scenario"])
     if after["problems"] is not None:
         orc.stored("PlanningProblemSet.translate_rotate" if case["mode"] == "whole" else f"problems[{case['mode']}]",
                    before["problems"], after["problems"])
     for lo, b, x in zip(case["loose"], before["loose"], after["loose"]):
-        if x is not None:
-            orc.stored(f"{lo['kind']}.translate_rotate", b, x)
-            orc.consequences(f"{lo['kind']}.translate_rotate", b, x, S)
-    if werr is None and all(e is None for e in lerrs):
+        if x is not None and not (lo["kind"] == "state" and (lo["v"].get("pos_other") or lo["v"].get("ori_other"))):
+            orc.stored(f"{lo['kind']}.translate_rotate", strip(b), strip(x))
+            orc.consequences(f"{lo['kind']}.translate_rotate", strip(b), strip(x), S)
+            orc.bodies(f"{lo['kind']}.translate_rotate", b, x)
+    if werr is None and all(e is None or (lo["kind"] == "state" and (lo["v"].get("pos_other") or lo["v"].get("ori_other")))
+                            for lo, e in zip(case["loose"], lerrs)):
         dafter = derived_world(sc, pps, moved_loose, case)
         orc.derived("derived-geometry", dbefore, dafter, S)
         # undo: rotate back by -a about the origin, then translate back by -t
@@ -1321,15 +1546,18 @@ def run_case(ctx, case):
             site, e = back_err
             orc.fail(site, f"inverse-raises-{type(e).__name__}", f"undoing the motion raised {type(e).__name__}: {str(e)[:160]}")
         else:
-            orc.restored("inverse", {"scenario": before["scenario"], "problems": before["problems"]},
-                         {"scenario": snap_scenario(sc), "problems": snap_problems(pps)}, S)
+            orc.restored("inverse", strip({"scenario": before["scenario"], "problems": before["problems"]}),
+                         strip({"scenario": snap_scenario(sc), "problems": snap_problems(pps)}), S)
         for lo, b, m in zip(case["loose"], before["loose"], moved_loose):
+            if m is None:
+                continue
             m1, e1 = apply_loose(lo["kind"], m, z, -a)
             m2, e2 = apply_loose(lo["kind"], m1, -np.array(tv, dtype=float), 0.0) if e1 is None else (None, e1)
             if e2 is not None:
                 orc.fail(e2[0], f"inverse-raises-{type(e2[1]).__name__}", f"undoing the motion of a loose {lo['kind']} raised {e2[1]!r}"[:300])
             else:
-                orc.restored(f"inverse[{lo['kind']}]", b, snap_loose(lo["kind"], m2), S)
+                orc.restored(f"inverse[{lo['kind']}]", strip(b), strip(snap_loose(lo["kind"], m2)), S)
+        reflect_world([sc, pps, moved_loose])
 
 
 def run(ctx):
